@@ -53,22 +53,22 @@ Definition ps_dec_size (l : bytes) : Z :=
   if u <? 9223372036854775808 then u else u - 18446744073709551616.
 
 Record ps_obs := mkObs {
-  ob_key : bytes; ob_proto : bytes; ob_listen : bytes; ob_tuple : bytes;
-  ob_pkt : bytes; ob_osc : option bytes }.
+  pso_key : bytes; pso_proto : bytes; pso_listen : bytes; pso_tuple : bytes;
+  pso_pkt : bytes; pso_osc : option bytes }.
 
-Record ps_dyn := mkDyn { dy_proto : bytes; dy_name : bytes; dy_pkt : bytes }.
+Record ps_dyn := mkDyn { psd_proto : bytes; psd_name : bytes; psd_pkt : bytes }.
 
 Definition ps_obs_enc (r : ps_obs) : bytes :=
-  ob_key r ++ ob_proto r ++ ob_listen r ++ ob_tuple r ++
-  ps_enc_size (len (ob_pkt r)) ++ ob_pkt r ++
-  match ob_osc r with
+  pso_key r ++ pso_proto r ++ pso_listen r ++ pso_tuple r ++
+  ps_enc_size (len (pso_pkt r)) ++ pso_pkt r ++
+  match pso_osc r with
   | Some o => ps_enc_size (len o) ++ o
   | None => ps_enc_size (-1)
   end.
 
 Definition ps_dyn_enc (r : ps_dyn) : bytes :=
-  dy_proto r ++ ps_enc_size (len (dy_name r)) ++ dy_name r ++
-  ps_enc_size (len (dy_pkt r)) ++ dy_pkt r.
+  psd_proto r ++ ps_enc_size (len (psd_name r)) ++ psd_name r ++
+  ps_enc_size (len (psd_pkt r)) ++ psd_pkt r.
 
 Fixpoint ps_obs_file (l : list ps_obs) : bytes :=
   match l with [] => [] | r :: tl => ps_obs_enc r ++ ps_obs_file tl end.
@@ -131,21 +131,21 @@ Fixpoint ps_dyn_all (fuel : nat) (l : bytes) : list ps_dyn :=
   end.
 
 Definition ps_obs_wf (la lt : Z) (r : ps_obs) : Prop :=
-  len (ob_key r) = PS_KEY /\ len (ob_proto r) = PS_PROTO /\ len (ob_listen r) = la /\
-  len (ob_tuple r) = lt /\ 1 <= len (ob_pkt r) <= PS_MAX /\
-  match ob_osc r with Some o => 1 <= len o <= PS_MAX | None => True end.
+  len (pso_key r) = PS_KEY /\ len (pso_proto r) = PS_PROTO /\ len (pso_listen r) = la /\
+  len (pso_tuple r) = lt /\ 1 <= len (pso_pkt r) <= PS_MAX /\
+  match pso_osc r with Some o => 1 <= len o <= PS_MAX | None => True end.
 
 Definition ps_dyn_wf (r : ps_dyn) : Prop :=
-  len (dy_proto r) = PS_PROTO /\ len (dy_name r) <= PS_MAX /\ 1 <= len (dy_pkt r) <= PS_MAX.
+  len (psd_proto r) = PS_PROTO /\ len (psd_name r) <= PS_MAX /\ 1 <= len (psd_pkt r) <= PS_MAX.
 
 Definition ps_obs_wfb (la lt : Z) (r : ps_obs) : bool :=
-  (len (ob_key r) =? PS_KEY) && (len (ob_proto r) =? PS_PROTO) && (len (ob_listen r) =? la) &&
-  (len (ob_tuple r) =? lt) && (1 <=? len (ob_pkt r)) && (len (ob_pkt r) <=? PS_MAX) &&
-  match ob_osc r with Some o => (1 <=? len o) && (len o <=? PS_MAX) | None => true end.
+  (len (pso_key r) =? PS_KEY) && (len (pso_proto r) =? PS_PROTO) && (len (pso_listen r) =? la) &&
+  (len (pso_tuple r) =? lt) && (1 <=? len (pso_pkt r)) && (len (pso_pkt r) <=? PS_MAX) &&
+  match pso_osc r with Some o => (1 <=? len o) && (len o <=? PS_MAX) | None => true end.
 
 Definition ps_dyn_wfb (r : ps_dyn) : bool :=
-  (len (dy_proto r) =? PS_PROTO) && (len (dy_name r) <=? PS_MAX) &&
-  (1 <=? len (dy_pkt r)) && (len (dy_pkt r) <=? PS_MAX).
+  (len (psd_proto r) =? PS_PROTO) && (len (psd_name r) <=? PS_MAX) &&
+  (1 <=? len (psd_pkt r)) && (len (psd_pkt r) <=? PS_MAX).
 
 (* ------------------------------------------------------------------ counter file (text) *)
 
